@@ -116,6 +116,8 @@ def scan_file(path, rel, bodies=None):
     for ln, raw in enumerate(lines, 1):
         code = strip_code(raw, state)
         s = code.strip()
+        if skip_until is None and re.match(r"^\s*macro_rules!\s+(test_|proptest_)\w*\s*\{", code):
+            skip_until = depth  # exported test macros: bodies of unit / property tests, not library code
         if skip_until is None:
             if s.startswith("#[cfg(test)]"):
                 cfg_test = True
@@ -206,9 +208,12 @@ def function_hashes(repo):
     import hashlib
     bodies = {}
     sites = inventory(repo, bodies)
-    wanted = {(s["file"], s["impl"], s["fn"]) for s in sites if s["fn"] != "<item>"}
-    return {f"{k[0]} | {k[1]}::{k[2]}": hashlib.sha1("\n".join(v).encode()).hexdigest()[:16]
-            for k, v in bodies.items() if k in wanted}
+    # Round 2: EVERY non-test function is pinned, not only the unsafe-bearing ones: the unchecked accesses rely on
+    # invariants that SAFE code establishes (`From` validators, `add_arc` asserts, generators); weakening such a
+    # validator introduces unsafety without touching any site or any unsafe-bearing function.
+    unsafe_fns = {(s["file"], s["impl"], s["fn"]) for s in sites if s["fn"] != "<item>"}
+    return {f"{k[0]} | {k[1]}::{k[2]}" + ("" if k in unsafe_fns else " [safe]"):
+            hashlib.sha1("\n".join(v).encode()).hexdigest()[:16] for k, v in bodies.items()}
 
 
 def load_map(path):
@@ -238,7 +243,15 @@ def compare(repo, map_path):
     fh = function_hashes(repo)
     for k, h in mm.get("functions", {}).items():
         if k in fh and fh[k] != h:
-            diffs.append(f"body of an unsafe-bearing function changed (guards of its unchecked accesses may have): {k}")
+            what = ("body of a safe function changed (it may establish an invariant unchecked accesses rely on)"
+                    if k.endswith(" [safe]") else
+                    "body of an unsafe-bearing function changed (guards of its unchecked accesses may have)")
+            diffs.append(f"{what}: {k}")
+        elif k not in fh:
+            diffs.append(f"function of the model inventory no longer in the source: {k}")
+    for k in fh:
+        if k not in mm.get("functions", {}):
+            diffs.append(f"new function (not in the model inventory): {k}")
     return diffs
 
 
